@@ -533,8 +533,8 @@ def scanCursor (s : Slots) (p : Nat) (vars : List Nat) (a : Cursor) : Cursor :=
 
 theorem hintCursor_fresh (s : Slots) (p : Nat) (vars : List Nat) (a : Cursor)
     (hV : a.lastVars = List.replicate vars.length none) (hR : a.lastRels = List.replicate vars.length none) :
-    hintCursor s p vars a = scanCursor s p vars a := by
-  unfold hintCursor scanCursor
+    FastOps.hintCursor s p vars a = scanCursor s p vars a := by
+  unfold FastOps.hintCursor scanCursor
   rw [hV, hR, zipWith_replicate_none, zipWith_replicate_none]
   simp only [hintEntry_none]
 
@@ -575,9 +575,9 @@ theorem fillArgsWithHintSpec_canon (nv : Nat) (nb : Option Nat) (s : Slots) (p :
   have h1 := specFold (vars.map (fun v => prevRel s v p)) (·.p) 0 [] rfl
   have h2 := specFold (vars.map (fun v => prevRel s v p)) (·.relv) 0 [] rfl
   simp only [List.nil_append, List.length_map, List.map_map] at h1 h2
-  have hz : ∀ (l : List (Option PRel)), l.zipIdx = l.zipIdx 0 := fun _ => rfl
-  rw [hV, hR, hz, h1, h2]
-  rfl
+  simp only [Function.comp_def] at h1 h2
+  rw [hV, hR]
+  congr 1
 
 /-- **the hint fill on a fresh Varlist cursor is the scan cursor**, whatever hint inside the contract -/
 theorem fillArgsWithHint_fresh (nv : Nat) (nb : Option Nat) (s : Slots) (p : Nat) (a : Cursor)
@@ -603,6 +603,75 @@ theorem fillArgsWithHint_subCur (nv : Nat) (nb : Option Nat) (s : Slots) (p : Na
   obtain ⟨h0, _, hu0⟩ := emptyArgsVarlist_WGS nv nb vars hn hlt s p
   refine ⟨_, fillArgsWithHint_fresh nv nb s p _ vars hint hp hlt hok rfl rfl, ?_, hu0⟩
   exact ⟨rfl, h0.hm, rfl, rfl⟩
+
+theorem foldl_keeps {α σ : Type} (P : σ → Prop) (f : σ → α → σ) (hf : ∀ c x, P c → P (f c x)) :
+    ∀ (l : List α) (c : σ), P c → P (l.foldl f c) := by
+  intro l
+  induction l with
+  | nil => intro c h; exact h
+  | cons x t ih => intro c h; exact ih _ (hf c x h)
+
+theorem fillF_subvarMapping (q : Nat) (node : Node) (a : Cursor) :
+    (fillF q node a).1.subvarMapping = a.subvarMapping := by
+  unfold fillF
+  simp only []
+  apply foldl_keeps (fun (c : Cursor) => c.subvarMapping = a.subvarMapping)
+  · intro c x hc
+    cases c.varToSubvar x.1 with
+    | none => exact hc
+    | some sub =>
+      simp only []
+      split <;> exact hc
+  · split <;> rfl
+
+theorem fillAtP_subvarMapping (node : Node) (a : Cursor) :
+    (fillAtP node a).1.subvarMapping = a.subvarMapping := by
+  unfold fillAtP
+  simp only []
+  apply foldl_keeps (fun (c : Cursor) => c.subvarMapping = a.subvarMapping)
+  · intro c x hc
+    cases x.2 with
+    | none => exact hc
+    | some prel =>
+      simp only []
+      cases c.varToSubvar x.1 with
+      | none => exact hc
+      | some sub =>
+        simp only []
+        split <;> exact hc
+  · rfl
+
+theorem fillWalk_subvarMapping (c : FastOps) :
+    ∀ (fuel : Nat) (q : Option Nat) (a : Cursor), (fillWalk c fuel q a).subvarMapping = a.subvarMapping := by
+  intro fuel
+  induction fuel with
+  | zero => intro q a; rfl
+  | succ fuel ih =>
+    intro q a
+    cases q with
+    | none => rfl
+    | some q =>
+      unfold fillWalk
+      cases c.getNode q with
+      | none => rfl
+      | some node =>
+        simp only []
+        split
+        · rw [ih]; exact fillF_subvarMapping q node a
+        · exact fillF_subvarMapping q node a
+
+theorem fillArgsAtP_subvarMapping (c : FastOps) (p : Nat) (a : Cursor) :
+    (c.fillArgsAtP p a).subvarMapping = a.subvarMapping := by
+  unfold fillArgsAtP
+  split
+  · cases c.getNode p with
+    | none => exact fillWalk_subvarMapping c _ _ a
+    | some node =>
+      simp only []
+      split
+      · rw [fillWalk_subvarMapping]; exact fillAtP_subvarMapping node a
+      · exact fillAtP_subvarMapping node a
+  · rfl
 
 /-- where the non-hint fill is specified (`hdom`), both fills build the same cursor up to the walk's
 bookkeeping counter `unfilled` -/
@@ -632,6 +701,258 @@ theorem fillArgsWithHint_eq_nohint (nv : Nat) (nb : Option Nat) (s : Slots) (p :
   congr 1
   unfold scanCursor
   rw [← hsub.hP, ← hsub.hv, ← hsub.hr, ← hmap]
+
+end FastOps
+
+/-! ## `get_propagated_substate_with_hint` -/
+
+/-- every stored op records one input and one output bit per variable (`get_inputs()[relv]`,
+`get_outputs()[relv]` are indexed by the relative variable) -/
+def IOLen (s : Slots) : Prop :=
+  ∀ q op, slotAt s q = some op → op.ins.length = op.vars.length ∧ op.outs.length = op.vars.length
+
+/-- the recorded input of the op at `pr.p` on its `pr.relv`-th variable -/
+def inAt (s : Slots) (pr : PRel) : Option Bool := (slotAt s pr.p).bind (fun op => op.ins[pr.relv]?)
+
+/-- scan-level description of what the CODE computes for one variable (valid for every worldline,
+consistent or not): the input of the op at `p` when that op is the first on the variable; otherwise the
+`p = 0` value when no op precedes `p` OR the last op before `p` is the last op of the variable ("Leave as
+None if wraps around", test `pcheck < next.p`); otherwise the output of the last op before `p` -/
+def subCode (s : Slots) (state : List Bool) (v p : Nat) : Option Bool :=
+  if firstOcc (occVAt s v) s.length = some p then inAt s (relAt s v p)
+  else match prevOcc (occVAt s v) p with
+    | none => state[v]?
+    | some q => if (nextOcc (occVAt s v) s.length q).isSome then outAt s (relAt s v q) else state[v]?
+
+/-- what the worldlines must satisfy at `p` for the code's answer to be the propagated state:
+(E) an op sitting at `p` that is the first on its variable records the `p = 0` value as input;
+(W) an op before `p` that is the last one on its variable hands back the `p = 0` value.
+Both follow from `OpContainer::verify(state)` (periodic, consistent worldlines). -/
+def SubstateOK (s : Slots) (state : List Bool) (vars : List Nat) (p : Nat) : Prop :=
+  ∀ v ∈ vars,
+    (firstOcc (occVAt s v) s.length = some p → inAt s (relAt s v p) = state[v]?) ∧
+    (∀ q, prevOcc (occVAt s v) p = some q → nextOcc (occVAt s v) s.length q = none →
+      outAt s (relAt s v q) = state[v]?)
+
+theorem subCode_eq_subAt (s : Slots) (state : List Bool) (v p : Nat)
+    (hE : firstOcc (occVAt s v) s.length = some p → inAt s (relAt s v p) = state[v]?)
+    (hW : ∀ q, prevOcc (occVAt s v) p = some q → nextOcc (occVAt s v) s.length q = none →
+      outAt s (relAt s v q) = state[v]?) :
+    subCode s state v p = subAt s state v p := by
+  unfold subCode subAt prevRel
+  by_cases hf : firstOcc (occVAt s v) s.length = some p
+  · simp only [hf, if_true]
+    have hp0 : prevOcc (occVAt s v) p = none := by
+      rw [prevOcc_none_iff]
+      rw [firstOcc_some_iff] at hf
+      exact hf.2.2
+    simp only [hp0, Option.map_none]
+    exact hE hf
+  · simp only [hf, if_false]
+    cases hp : prevOcc (occVAt s v) p with
+    | none => rfl
+    | some q =>
+      simp only [Option.map_some]
+      cases hn : nextOcc (occVAt s v) s.length q with
+      | none => simp only [Option.isSome_none, Bool.false_eq_true, if_false]; exact (hW q hp hn).symm
+      | some _ => simp
+
+namespace FastOps
+
+/-- the backward walk of the hint (`while phint >= p`) ends at an op of the variable strictly before
+`p`, or gives up (`?`) — in both cases a hint inside the contract again -/
+theorem hintBack_canon (nv : Nat) (nb : Option Nat) (s : Slots) (p v : Nat) :
+    ∀ (fuel q : Nat), occVAt s v q = true → q < fuel →
+      ∃ r, hintBack (canon nv nb s) p fuel q (relAt s v q).relv = some r ∧ HintVarOK s v r ∧
+        ∀ q', r = some q' → q' < p := by
+  intro fuel
+  induction fuel with
+  | zero => intro q _ h; omega
+  | succ fuel ih =>
+    intro q hocc hq
+    unfold hintBack
+    by_cases hqp : q < p
+    · refine ⟨some q, by simp [hqp], ?_, ?_⟩
+      · intro q' h; cases h; exact hocc
+      · intro q' h; cases h; exact hqp
+    · obtain ⟨op, hsp, hmem⟩ := occV_slot hocc
+      have hprev : (canonNode s q op).previousForVars[(relAt s v q).relv]? = some (prevRel s v q) := by
+        rw [relAt_relv hsp]; exact map_idxOf' op.vars _ v hmem
+      simp only [hqp, if_false, nodeExpect_canon, hsp, Option.map_some, hprev]
+      cases hpo : prevOcc (occVAt s v) q with
+      | none =>
+        have : prevRel s v q = none := by simp [prevRel, hpo]
+        simp only [this]
+        exact ⟨none, rfl, (by intro q' h; cases h), (by intro q' h; cases h)⟩
+      | some q' =>
+        have hpr : prevRel s v q = some (relAt s v q') := by simp [prevRel, hpo]
+        obtain ⟨hq'q, hq'occ⟩ := prevOcc_lt hpo
+        obtain ⟨op', hsp', _⟩ := occV_slot hq'occ
+        have hq' : (relAt s v q').p = q' := rfl
+        simp only [hpr, hq', hsp', Option.map_some]
+        exact ih q' hq'occ (by omega)
+
+theorem ins_idx {s : Slots} (hio : IOLen s) {q v : Nat} {op : Op} (hsp : slotAt s q = some op) (hmem : v ∈ op.vars) :
+    ∃ b, op.ins[op.vars.idxOf v]? = some b := by
+  have hl := List.idxOf_lt_length_of_mem hmem
+  have := (hio q op hsp).1
+  exact ⟨op.ins[op.vars.idxOf v]'(by omega), List.getElem?_eq_getElem (by omega)⟩
+
+theorem outs_idx {s : Slots} (hio : IOLen s) {q v : Nat} {op : Op} (hsp : slotAt s q = some op) (hmem : v ∈ op.vars) :
+    ∃ b, op.outs[op.vars.idxOf v]? = some b := by
+  have hl := List.idxOf_lt_length_of_mem hmem
+  have := (hio q op hsp).2
+  exact ⟨op.outs[op.vars.idxOf v]'(by omega), List.getElem?_eq_getElem (by omega)⟩
+
+/-- one `(subvar, (phint, var))` step of `get_propagated_substate_with_hint`: entry `subvar` becomes
+`subCode` — whatever hint inside the contract -/
+theorem hintSubVar_canon (nv : Nat) (nb : Option Nat) (s : Slots) (p : Nat) (hio : IOLen s)
+    (state sub : List Bool) (i : Nat) (hi : i < sub.length) (ph : Option Nat) (v : Nat) (hv : v < nv)
+    (hvs : v < state.length) (hh : HintVarOK s v ph) :
+    ∃ b, subCode s state v p = some b ∧
+      (canon nv nb s).hintSubVar p state sub i ph v = some (sub.set i b) := by
+  have hsv : state[v]? = some state[v] := List.getElem?_eq_getElem hvs
+  have hw : ∀ (l : List Bool) (b : Bool), l.length = sub.length → subWrite l i b = some (l.set i b) := by
+    intro l b hl; simp [subWrite, hl, hi]
+  have hss : ∀ b b', (sub.set i b).set i b' = sub.set i b' := by
+    intro b b'; simp
+  -- the second debug_assert and the backward walk of the hint
+  have hassert : (canon nv nb s).hintHasVar v ph = some () := by
+    unfold hintHasVar
+    cases ph with
+    | none => rfl
+    | some q =>
+      obtain ⟨op, hsp, hmem⟩ := occV_slot (hh q rfl)
+      have hop : (canonNode s q op).op = op := rfl
+      simp [nodeExpect_canon, hsp, hop, indexOfVar_mem hmem]
+  obtain ⟨r, hr, hrok, hrlt⟩ : ∃ r, (canon nv nb s).hintBackStart p v ph = some r ∧ HintVarOK s v r ∧
+      ∀ q', r = some q' → q' < p := by
+    unfold hintBackStart
+    cases ph with
+    | none => exact ⟨none, rfl, (by intro q h; cases h), (by intro q h; cases h)⟩
+    | some q =>
+      have hocc := hh q rfl
+      obtain ⟨op, hsp, hmem⟩ := occV_slot hocc
+      have hop : (canonNode s q op).op = op := rfl
+      obtain ⟨r, h1, h2, h3⟩ := hintBack_canon nv nb s p v (s.length + 1) q hocc (by have := occV_lt hocc; omega)
+      refine ⟨r, ?_, h2, h3⟩
+      simp only [nodeExpect_canon, hsp, Option.map_some, Option.bind_some, hop, indexOfVar_mem hmem, length_canon]
+      rw [← h1, relAt_relv hsp]
+  unfold hintSubVar
+  simp only [hintIsOp_canon nv nb s v ph hh, hassert, hsv, hw sub _ rfl, varStartIdx_canon nv nb s v hv, hr,
+    hintUseExact_canon nv nb s p v r hrok, Option.bind_some]
+  have hrp : r ≠ some p := by
+    intro e; have := hrlt p e; omega
+  by_cases hf : firstOcc (occVAt s v) s.length = some p
+  · -- the op at `p` is the first on the variable: its recorded input
+    have hocc : occVAt s v p = true := (firstOcc_mem hf).2
+    obtain ⟨op, hsp, hmem⟩ := occV_slot hocc
+    obtain ⟨b, hb⟩ := ins_idx hio hsp hmem
+    have hop : (canonNode s p op).op = op := rfl
+    refine ⟨b, ?_, ?_⟩
+    · simp [subCode, hf, inAt, relAt_relv hsp, hsp, hb]
+    · simp only [hf, or_true, if_true, relAt_relv hsp, nodeExpect_canon, hsp, Option.map_some,
+        Option.bind_some, hop, hb, hw (sub.set i state[v]) b (by simp), hss]
+  · have hex : ¬ (r = some p ∨ firstOcc (occVAt s v) s.length = some p) := by
+      intro h; cases h with
+      | inl h => exact hrp h
+      | inr h => exact hf h
+    obtain ⟨r', hr', hnone, hsome⟩ := hintIterStart_canon nv nb s p v r hrok hex
+    simp only [hex, if_false, hr', Option.bind_some]
+    cases r' with
+    | none =>
+      obtain ⟨hp0, _⟩ := hnone rfl
+      exact ⟨state[v], by simp [subCode, hf, hp0, hsv], rfl⟩
+    | some st =>
+      obtain ⟨hso, hsp', hsr⟩ := hsome st rfl
+      obtain ⟨x, op, hx, hprev, hxr, hxs, hxn, hxlt⟩ :=
+        hintWalk_canon nv nb s p v hv (p + 1) st.p hso hsp' (by omega)
+      rw [← hsr] at hx
+      have hmem : v ∈ op.vars := by
+        have := (prevOcc_lt hprev).2
+        exact mem_of_occV hxs this
+      simp only [hx, Option.bind_some]
+      by_cases hlt : x.pcheck < x.nextP
+      · have hnx := hxlt.mp hlt
+        obtain ⟨b, hb⟩ := outs_idx hio hxs hmem
+        have hop : (canonNode s x.pcheck op).op = op := rfl
+        refine ⟨b, ?_, ?_⟩
+        · simp [subCode, hf, hprev, hnx, outAt, relAt_relv hxs, hxs, hb]
+        · simp only [hlt, if_true, hxn, hop, hxr, relAt_relv hxs, hb, Option.bind_some,
+            hw (sub.set i state[v]) b (by simp), hss]
+      · have hnx : (nextOcc (occVAt s v) s.length x.pcheck).isSome = false := by
+          cases h : (nextOcc (occVAt s v) s.length x.pcheck).isSome with
+          | false => rfl
+          | true => exact absurd (hxlt.mpr h) hlt
+        refine ⟨state[v], ?_, ?_⟩
+        · simp [subCode, hf, hprev, hnx, hsv]
+        · simp only [hlt, if_false]
+
+/-- the step function of the loop, as it appears in `propagatedSubstate` -/
+def hintSubStep (c : FastOps) (p : Nat) (state : List Bool) (acc : Option (List Bool))
+    (x : (Option Nat × Nat) × Nat) : Option (List Bool) :=
+  acc.bind fun sub => c.hintSubVar p state sub x.2 x.1.1 x.1.2
+
+theorem hintSub_fold (nv : Nat) (nb : Option Nat) (s : Slots) (p : Nat) (hio : IOLen s) (state : List Bool) :
+    ∀ (l : List (Option Nat × Nat)),
+      (∀ x ∈ l, x.2 < nv ∧ x.2 < state.length ∧ HintVarOK s x.2 x.1) →
+    ∀ (k : Nat) (pre mid post : List Bool), pre.length = k → mid.length = l.length →
+      ∃ bs, (l.zipIdx k).foldl (hintSubStep (canon nv nb s) p state) (some (pre ++ (mid ++ post)))
+          = some (pre ++ (bs ++ post)) ∧
+        bs.map some = l.map (fun x => subCode s state x.2 p) := by
+  intro l
+  induction l with
+  | nil =>
+    intro _ k pre mid post _ hm
+    have : mid = [] := List.length_eq_zero_iff.mp hm
+    subst this
+    exact ⟨[], rfl, rfl⟩
+  | cons x l ih =>
+    intro hl k pre mid post hp hm
+    obtain ⟨hxv, hxs, hxh⟩ := hl x List.mem_cons_self
+    cases mid with
+    | nil => simp at hm
+    | cons m mid =>
+    have hk : k < (pre ++ (m :: mid ++ post)).length := by simp; omega
+    obtain ⟨b, hb, hstep⟩ := hintSubVar_canon nv nb s p hio state (pre ++ (m :: mid ++ post)) k hk x.1 x.2 hxv hxs hxh
+    have hset : (pre ++ (m :: mid ++ post)).set k b = (pre ++ [b]) ++ (mid ++ post) := by
+      rw [← hp]; simp
+    obtain ⟨bs, hbs, hmap⟩ := ih (fun y hy => hl y (List.mem_cons_of_mem _ hy)) (k + 1) (pre ++ [b]) mid post
+      (by simp [hp]) (by simpa using hm)
+    refine ⟨b :: bs, ?_, by simp [hb, hmap]⟩
+    simp only [List.zipIdx_cons, List.foldl_cons]
+    have : hintSubStep (canon nv nb s) p state (some (pre ++ (m :: mid ++ post))) (x, k)
+        = some ((pre ++ [b]) ++ (mid ++ post)) := by
+      simp only [hintSubStep, Option.bind_some, hstep, hset]
+    rw [this, hbs]
+    simp
+
+/-- `get_propagated_substate_with_hint` on the canonical container: every entry is `subCode`,
+whatever hint inside the contract -/
+theorem propagatedSubstate_canon (nv : Nat) (nb : Option Nat) (s : Slots) (p : Nat) (hio : IOLen s)
+    (sub state : List Bool) (vars : List Nat) (hint : List (Option Nat))
+    (hlt : ∀ v ∈ vars, v < nv) (hst : ∀ v ∈ vars, v < state.length) (hok : HintOK s vars hint)
+    (hsl : sub.length = vars.length) :
+    ∃ bs, (canon nv nb s).propagatedSubstate p sub state vars hint = some bs ∧
+      bs.map some = vars.map (fun v => subCode s state v p) := by
+  have hzl : (hint.zip vars).length = vars.length := by simp [hok.1]
+  obtain ⟨bs, hbs, hmap⟩ := hintSub_fold nv nb s p hio state (hint.zip vars)
+    (fun x hx => ⟨hlt _ (mem_zip_hint hok x hx).1, hst _ (mem_zip_hint hok x hx).1, (mem_zip_hint hok x hx).2⟩)
+    0 [] sub [] rfl (by rw [hzl, hsl])
+  refine ⟨bs, ?_, ?_⟩
+  · unfold propagatedSubstate
+    have hstep : (fun (acc : Option (List Bool)) (x : (Option Nat × Nat) × Nat) =>
+        acc.bind fun sub => (canon nv nb s).hintSubVar p state sub x.2 x.1.1 x.1.2)
+        = hintSubStep (canon nv nb s) p state := rfl
+    have hz : (hint.zip vars).zipIdx = (hint.zip vars).zipIdx 0 := rfl
+    simp only [hstep]
+    rw [hz]
+    simpa using hbs
+  · rw [hmap]
+    have : (hint.zip vars).map (fun x => subCode s state x.2 p)
+        = ((hint.zip vars).map (·.2)).map (fun v => subCode s state v p) := by
+      rw [List.map_map]; rfl
+    rw [this, zip_map_snd_of_length hint vars hok.1]
 
 end FastOps
 end Qmc
